@@ -172,6 +172,8 @@ class Model(object):
             return true[:-2]
         if ck == "wrongcase":  # wrong value in upper case
             return digest(canon, data + b"x").upper()
+        if ck == "wrong-nonascii":  # the true digest with one look-alike character (Cyrillic a / e-acute): a wrong value
+            return true[:3] + ("\u0430" if true[3] != "a" else "\u00e9") + true[4:]
         raise ValueError(ck)
 
     def size_arg(self, data, sz):
